@@ -84,7 +84,9 @@ class OperatorTemplate(AbstractBaseTemplate):
                 pass  # pass equations string to constructor
             # else, update according to predefined rules, assuming dict structure
             elif isinstance(equations, dict):
-                new_eqs = equations.pop('add', [])
+                # (a copy: the caller's dictionary may be used for further derivations)
+                equations = dict(equations)
+                new_eqs = list(equations.pop('add', []))
                 equations = [_update_equation(eq, **equations) for eq in self.equations] + new_eqs
             else:
                 raise TypeError("Unknown data type for attribute 'equations'.")
